@@ -16,6 +16,7 @@
 
 #pragma once
 
+#include <unifex/detail/verif_hooks.hpp>
 #include <unifex/get_stop_token.hpp>
 #include <unifex/receiver_concepts.hpp>
 #include <unifex/sender_concepts.hpp>
@@ -128,6 +129,7 @@ struct operation_state<UpstreamSender, DownstreamReceiver>::detached_state
     // 1. set ref count to 2
     // 2. zero the pointer
     // if successful, callback owns the op and ptr remains in `expected`
+    UNIFEX_VERIF_POINT(361);
     if (!parentOp_.compare_exchange_strong(
             expected,
             2u,
@@ -137,6 +139,7 @@ struct operation_state<UpstreamSender, DownstreamReceiver>::detached_state
       return;
     }
     stopSource_.request_stop();
+    UNIFEX_VERIF_POINT(362);
     auto refCount = parentOp_.fetch_sub(1u, std::memory_order_acq_rel);
     UNIFEX_ASSERT(parent_op_ptr(refCount) == nullptr);
     auto op = parent_op_ptr(expected);
@@ -151,6 +154,7 @@ struct operation_state<UpstreamSender, DownstreamReceiver>::detached_state
   }
 
   parent_op_t* try_get_op() noexcept {
+    UNIFEX_VERIF_POINT(363);
     auto op = parentOp_.fetch_sub(1u, std::memory_order_acq_rel);
     if (ref_count(op) != 1u) {
       // decrement from 2 means lost race with stop callback
